@@ -196,6 +196,7 @@ composition(const hx_job *j, const hx_spec *sp)
         case IMB_AUTH_CHACHA20_POLY1305:
         case IMB_AUTH_SNOW_V_AEAD:
         case IMB_AUTH_SM4_GCM:
+        case IMB_AUTH_PON_CRC_BIP:
                 return -1;
         case IMB_AUTH_DOCSIS_CRC32:
                 return sp->cm == IMB_CIPHER_DOCSIS_SEC_BPI ? docsis_crc_composition(j, sp) : -1;
@@ -313,9 +314,11 @@ cell(int mode, int klen, int dir, int hash, int order, hx_rng *g)
                 return;
         }
         j.tmpl.key_len_in_bytes = klen;
-        if (mode == IMB_CIPHER_CUSTOM)
+        /* CUSTOM stages: the catalogue's call-backs (deterministic cipher / hash), unless the job was built
+         * from a stand-in suite */
+        if (mode == IMB_CIPHER_CUSTOM && !j.tmpl.cipher_func)
                 j.tmpl.cipher_func = custom_fn;
-        if (hash == IMB_AUTH_CUSTOM)
+        if (hash == IMB_AUTH_CUSTOM && !j.tmpl.hash_func)
                 j.tmpl.hash_func = custom_fn;
         /* --- session descriptor --- */
         IMB_JOB sj;
